@@ -6,7 +6,7 @@ META = dict(
     technique="bounded-exhaustive configuration grid (tick x timeout x repeat x chain shape) run on the real Builder/Skedder; clock invariant at every tick, firing tick vs statement and vs reference interpreter",
     text="For every tick period in {1/16,1/8,1/4,1/2,1} and {0.1,0.05,0.2,0.3}, every T in {0, tick/2, tick, 1.5 tick, 2 tick, 3 tick, 0.3, 1.0}, "
          "every N in {0,1,2,3,5}, two chain shapes using timeout / repeat / go next if elapsed / forced re-entry `go me`, as a main framer and as an "
-         "auxiliary (plus chains in which a conditional auxiliary starts and completes while a timeout is pending: the clocks must keep counting): at every tick the elapsed share equals the float difference (tick stamp - stamp of the last outline change) and recurred the "
+         "auxiliary (plus chains in which a conditional auxiliary starts and completes while a timeout is pending, and counting auxiliaries next to sibling auxiliaries of the same frame that transition every K ticks: the clocks must keep counting): at every tick the elapsed share equals the float difference (tick stamp - stamp of the last outline change) and recurred the "
          "iterations since; the first clause whose condition holds on those values fires at the first evaluation where it holds and nothing fires "
          "otherwise. On binary-exact ticks the firing index is additionally compared with the arithmetic ideal ceil(T/tick); on decimal ticks the "
          "number of configurations whose firing index differs from the decimal ideal is reported (the statement speaks of elapsed, which is the share value).",
@@ -24,6 +24,7 @@ def family():
     yield from F.fam_clocks_condaux()
     yield from F.fam_clocks_aux_interrupt()
     yield from F.fam_clocks_rebid()
+    yield from F.fam_clocks_siblings()
     if core.TIER != "quick":
         yield from F.fam_clocks_deep()
 
